@@ -1112,26 +1112,33 @@ func Retract(vm *VM, t Term, k Cont, env *Env) *Promise {
 		return Error(permissionError(operationModify, permissionTypeStaticProcedure, pi.Term(), env))
 	}
 
-	ks := make([]func(context.Context) *Promise, len(u.clauses))
-	for i, c := range u.clauses {
+	ks := make([]func(context.Context) *Promise, 0, len(u.clauses))
+	for _, c := range u.clauses {
 		c := c
+		if c.raw == nil { // The rest of the previous clause.
+			continue
+		}
 		cp, err := renamedCopy(c.raw, nil, env)
 		if err != nil {
 			return Error(err)
 		}
 		raw := rulify(cp, env)
-		ks[i] = func(_ context.Context) *Promise {
+		ks = append(ks, func(_ context.Context) *Promise {
 			return Unify(vm, t, raw, func(env *Env) *Promise {
 				// The database may have changed since the call. Remove the very clause we unified with, if it's still there.
 				for j := range u.clauses {
 					if id(u.clauses[j].raw) == id(c.raw) {
-						u.clauses, u.clauses[len(u.clauses)-1] = append(u.clauses[:j], u.clauses[j+1:]...), clause{}
+						n := 1
+						for j+n < len(u.clauses) && u.clauses[j+n].raw == nil {
+							n++
+						}
+						u.clauses = append(u.clauses[:j:j], u.clauses[j+n:]...)
 						break
 					}
 				}
 				return k(env)
 			}, env)
-		}
+		})
 	}
 	return Delay(ks...)
 }
@@ -2010,16 +2017,19 @@ func Clause(vm *VM, head, body Term, k Cont, env *Env) *Promise {
 		return Error(permissionError(operationAccess, permissionTypePrivateProcedure, pi.Term(), env))
 	}
 
-	ks := make([]func(context.Context) *Promise, len(u.clauses))
-	for i, c := range u.clauses {
+	ks := make([]func(context.Context) *Promise, 0, len(u.clauses))
+	for _, c := range u.clauses {
+		if c.raw == nil { // The rest of the previous clause.
+			continue
+		}
 		cp, err := renamedCopy(c.raw, nil, env)
 		if err != nil {
 			return Error(err)
 		}
 		r := rulify(cp, env)
-		ks[i] = func(context.Context) *Promise {
+		ks = append(ks, func(context.Context) *Promise {
 			return Unify(vm, atomIf.Apply(head, body), r, k, env)
-		}
+		})
 	}
 	return Delay(ks...)
 }
